@@ -33,11 +33,12 @@ MANIFEST = dict(
         "class with ascending labels; DataView lists the dataset in order, subsets compose, toDataset(view) holds exactly the view's elements. "
         "The model is tied to the real Data/LabeledData/DataView code by an exact line-by-line correspondence over random operation histories (24 "
         "operation kinds incl. shuffle with the observed permutation, binarySubProblem, oneVersusRest, element-/batch-wise transform, signed iterator "
-        "jumps) on unsigned, RealVector, CompressedRealVector and user-struct elements under ASan/UBSan, plus an independent in-harness oracle that keeps "
+        "jumps) on unsigned, RealVector, CompressedRealVector and user-struct elements and on WeightedLabeledData under ASan/UBSan, plus an independent in-harness oracle that keeps "
         "a flat std::vector beside every dataset."),
   note=TRUST + "covered by the correspondence and the oracle only (modelled, no theorem): binarySubProblem, push_back/subc on LabeledData, "
        "Data(size, element, batchSize) batch layout beyond its sum, shapes after transform; sharing of batches between datasets (shared_ptr) and the storage "
-       "layout of sparse batches are not modelled; WeightedDataset is not covered. Findings F1, F9, F10 (findings_proposed/C03.md) make the check print "
+       "layout of sparse batches are not modelled; WeightedLabeledData is covered by the correspondence only (same model, weights checked by the oracle; "
+       "ops new/repartition/splitBatch/splice/append/indexedSubset/shuffle). Findings F1, F9, F10, F13 (findings_proposed/C03.md) make the check print "
        "VIOLATION on the unrepaired tree.",
   technique="Lean 4 proofs (induction over partitions and operation histories) on a model whose batch arithmetic is regenerated from the C++ "
             "on every run + differential correspondence with the real containers (ASan/UBSan)",
@@ -56,8 +57,15 @@ def translate(ctx):
     return ctx.translate("batch_arith.py")
 
 
+TYPES_W = [("wuint", []), ("wreal", ["3"])]     # WeightedLabeledData<I, unsigned> (harness/c03w.cpp)
+
+
 def build(ctx):
     return ctx.harness("c03", ["c03.cpp"], repo_sources=["src/Core/Random.cpp"])
+
+
+def build_w(ctx):
+    return ctx.harness("c03w", ["c03w.cpp"], repo_sources=["src/Core/Random.cpp"])
 
 
 # ----------------------------------------------------------------------------- generator
@@ -91,8 +99,19 @@ def gen_labels(r, n):
     return [r.choice(pool) for _ in range(n)]
 
 
-def gen_case(ctx, r, model, maxlen):
-    """one history; `model` answers with the state after every op"""
+W_OPS = {"new", "repart", "splitb", "splice", "append", "subset", "shuffle", "copy"}
+BRANCHES = [(6, "new"), (16, "repart"), (24, "splitb"), (31, "splitat"), (35, "splice"), (41, "append"), (44, "pushb"),
+            (50, "subset"), (54, "subc"), (62, "reorder"), (67, "shuffle"), (76, "rbc"), (82, "bin"), (85, "ovr"),
+            (89, "xform"), (91, "xlab"), (93, "copy"), (96, "iter"), (100, "view")]
+
+
+def branch_of(x):
+    return next(name for lim, name in BRANCHES if x < lim)
+
+
+def gen_case(ctx, r, model, maxlen, allowed=None):
+    """one history; `model` answers with the state after every op.  `allowed`: restrict the op kinds
+    (the weighted-dataset harness supports a subset)"""
     ops, base = [], 0
 
     def emit(text, model_text=None):
@@ -129,6 +148,8 @@ def gen_case(ctx, r, model, maxlen):
         others = [k for k in range(4) if k != a]
         b = r.choice(others)
         x = r.below(100)
+        if allowed is not None and branch_of(x) not in allowed:
+            continue
         res = None
         if x < 6:
             res = new(r.below(4))
@@ -227,9 +248,12 @@ def run(ctx):
     ctx.prove(["SharkVerif.Props.C03"])
     if not ctx.quick:
         ctx.leanchecker(["SharkVerif.Props.C03"])
-    exe = build(ctx)
+    from concurrent.futures import ThreadPoolExecutor
+    with ThreadPoolExecutor(max_workers=2) as ex:      # the two harness TUs compile side by side
+        fe, fw = ex.submit(build, ctx), ex.submit(build_w, ctx)
+        exe, exew = fe.result(), fw.result()
     drv = ctx.driver("drv_c03")
-    if not exe or not drv:
+    if not exe or not exew or not drv:
         return
     ncases, maxlen = (120, 40) if ctx.quick else (300, 120)
     ncases = int(os.environ.get('VERIF_NCASES', ncases))          # self-tests: fewer random histories
@@ -242,8 +266,17 @@ def run(ctx):
             c = gen_case(ctx, r, model, maxlen)
             if c:
                 cases.append(c)
+        wcases = dsgen.load_corpus("C03W")
+        for _ in range(ncases):
+            c = gen_case(ctx, r, model, 2 * maxlen, allowed=W_OPS)
+            if c:
+                wcases.append(c)
     finally:
         model.close()
+    for c in wcases:
+        for o in c:
+            ctx.hist("weighted_op_mix", o.split()[0])
+    ctx.cov["weighted_cases"] = len(wcases)
     for c in cases:
         for o in c:
             ctx.hist("op_mix", o.split()[0])
@@ -262,12 +295,30 @@ def run(ctx):
         return core.correspond(ctx, f"K-C03[{ty}]", cases, hcmd, dcmd, dsgen.classify, env=dsgen.ASAN_ENV)
     dsgen.run_types(one, dsgen.types(TYPES, 'VERIF_C03_TYPES'))
 
+    def onew(t):
+        ty, shape = t
+        hcmd = [exew, ty]
+        dcmd = [sys.executable, feed, RNG_OPS, exew, ty, "--", drv, *shape]
+        return core.correspond(ctx, f"K-C03[{ty}]", wcases, hcmd, dcmd, classify_w, env=dsgen.ASAN_ENV)
+    dsgen.run_types(onew, dsgen.types(TYPES_W, 'VERIF_C03_TYPES'))
+    ctx.cov["evaluations"] += len(wcases) * len(TYPES_W)
+
+
+def classify_w(ops, res):
+    key, what = dsgen.classify(ops, res)
+    if key.startswith("oracle:") and any(o.split()[0] == "shuffle" for o in ops):
+        return ("F13:weighted-shuffle-corrupts-inputs:shuffle",
+                f"BaseWeightedDataset::shuffle() separates/corrupts elements (swap of element proxies); ops {ops}")
+    return key, what
+
 
 def replay(ctx, rep):
-    exe = build(ctx); drv = ctx.driver("drv_c03")
-    cmd = list(rep.get("harness_cmd", [exe, "uint"])); cmd[0] = exe
+    drv = ctx.driver("drv_c03")
+    cmd = list(rep.get("harness_cmd", ["", "uint"]))
     ty = cmd[1] if len(cmd) > 1 else "uint"
-    shape = dict(TYPES).get(ty, [])
+    exe = build_w(ctx) if ty.startswith("w") else build(ctx)
+    cmd[0] = exe
+    shape = dict(TYPES + TYPES_W).get(ty, [])
     feed = os.path.join(core.VERIF, "tools", "obsfeed.py")
     dcmd = [sys.executable, feed, RNG_OPS, exe, ty, "--", drv, *shape]
     res = core.run_case(ctx, cmd, dcmd, rep["ops"])
